@@ -159,9 +159,13 @@ def run(ctx: Ctx):
 
     # ---- R05.c inputs untouched / result array -------------------------------------
     ctx.rule("R05.c", "the step allocates a fresh result array, writes only there, returns it; inputs are const / never stored through", floor=6)
-    T = tm.TemplateModel(sm)
+    from . import util as _util
+    from sa import av as _av0
+
     for short in ("templates/python.py", "templates/jax.py"):
-        sk = T.skeleton(short, "method")
+        sk = _util.skeleton(ctx, "R05.c", short, "method", {"nan_to_num": _av0.C(False)} if short.endswith("python.py") else None)
+        if sk is None:
+            continue
         tree = tm.py_parse(sk)
         bad = []
         for n in ast.walk(tree):
@@ -199,15 +203,28 @@ def run(ctx: Ctx):
         cg.where(),
     )
     # C backend: const formals
+    from sa import av as _av
+
+    from . import util
+    from .c04 import func_tuple
+
     for qn in ("CCodeGenerator._rhs_arguments", "CCodeGenerator._scheme_arguments"):
         f = sm.func("codegen/c.py", qn)
-        d = [n for n in ast.walk(f.node) if isinstance(n, ast.Dict)]
-        ctx.require(d, f"{qn}: argument_dict not found")
-        entries = {const_str(k): v for k, v in zip(d[0].keys, d[0].values)}
-        pconst = "const" in norm(entries.get("p", ast.Constant("")))
-        default_const = any(a.arg == "const_states" for a in f.node.args.args) and any(isinstance(dv, ast.Constant) and dv.value is True for dv in f.node.args.defaults)
-        sconst = "states_prefix" in norm(entries.get("s", ast.Constant(""))) and default_const or "const double" in norm(entries.get("s", ast.Constant("")))
-        ctx.check(pconst and sconst, "R05.c", f.key("const-formals"), "states and parameters are const pointers by default", f"{qn}: states/parameters formals are not const by default (s: {norm(entries.get('s'))}, p: {norm(entries.get('p'))})", f.where())
+        dflt = dict(zip([a.arg for a in f.node.args.args][len(f.node.args.args) - len(f.node.args.defaults):], f.node.args.defaults))
+        bind = {k: _av.C(v.value) for k, v in dflt.items() if isinstance(v, ast.Constant) and isinstance(v.value, bool)}
+        kw, v = func_tuple(ctx, f, bind)
+        ents = {}
+        if kw and kw.get("arguments") is not None:
+            for cp in _av.find_all(kw["arguments"], "comp"):
+                for it in cp[3]:
+                    if it[0] == "sub" and it[1][0] == "dict":
+                        ents = {k[1]: x for k, x in it[1][1] if k[0] == "c"}
+        if not ents or any(_av.has_unk(x) for x in ents.values()):
+            ctx.undecided("R05.c", f.key("const-formals"), f"the formal argument table is not understood ({_av.show(v)[:100]})", f.where())
+            continue
+        sv, pv = ents.get("s"), ents.get("p")
+        okc = sv is not None and pv is not None and sv[0] == "c" and pv[0] == "c" and str(sv[1]).startswith("const ") and str(pv[1]).startswith("const ")
+        ctx.check(okc, "R05.c", f.key("const-formals"), "states and parameters are const pointers by default", f"{qn}: states/parameters formals are not const by default (s: {_av.show(sv) if sv else None}, p: {_av.show(pv) if pv else None})", f.where())
 
     # ---- R05.d the dt symbol is the formal argument -----------------------------
     ctx.rule("R05.d", "the time-step symbol printed in the body has the name of the formal time-step argument in every backend", floor=3)
